@@ -1287,6 +1287,12 @@ class Exec:
             return
         if isinstance(tgt, ast.Attribute):
             o = self.ev(tgt.value, st)
+            from . import objects as _objs
+            if isinstance(o, _objs.SObj) and getattr(self.k, "sobj_setattr", None) is not None:
+                # a write to a field of a symbolic object: the contract keeps such fields in ghost maps (objects reached through symbolic lists are
+                # otherwise read-only)
+                self.k.sobj_setattr(self, st, o, tgt.attr, val, node)
+                return
             if not isinstance(o, ORef):
                 raise Undecided("attribute store on non-object")
             od = st.heap[o.oid]
